@@ -166,10 +166,11 @@ CLOSE_WHAT = {
     "ice": "unusable ICE configuration (every attempt fails)", "unreach": "broker unreachable (connection dropped without an answer)",
     "refuse": "broker refusing (HTTP 503)", "badjson": "malformed answer (not a poll response)",
     "badsdp": "malformed answer (not a usable session description)", "noopen": "data channel never opening",
+    "silent": "broker accepts the request and never sends a response header (a rendezvous attempt in flight that only the client's own 15 s limit ends)",
 }
 # retry scenarios: does a failed attempt of the kind tell the event listeners? (SetRemoteDescription refusing the answer is
 # only returned to connectLoop, which logs it)
-RETRY_EVENTED = ("ice", "unreach", "refuse", "badjson", "noopen")
+RETRY_EVENTED = ("ice", "unreach", "refuse", "badjson", "noopen", "silent")
 
 
 def retry_prop(spec, sp, r):
@@ -188,6 +189,10 @@ def retry_prop(spec, sp, r):
                 "collecting goroutine: a failed attempt terminates the client process (%s; events %s)" % (where, f.get("ev")))
     if nilerr > 0 or "failed?nil" in evs:
         return "failure-event-without-error|EventOnSnowflakeConnectionFailed was emitted with a nil Error (%s)" % where
+    if kind == "silent" and f.get("fly", "0") != "0":
+        return ("rendezvous-attempt-unbounded|the broker accepted the request and stayed silent; %s rendezvous attempt(s) were still in flight when the "
+                "client's own limit (ResponseHeaderTimeout of the broker transport, 15 s) plus 10 s per attempt had long passed: the attempt is not "
+                "bounded, so neither is a Close that waits for it (%s; attempts made %d)" % (f.get("fly"), where, att))
     if att < k + 1:
         return ("no-retry-after-failure|the client made %d rendezvous attempt(s) and then none for more than a ReconnectTimeout although the "
                 "connection was not closed: a failed attempt must be retried (%s)" % (att, where))
@@ -240,6 +245,10 @@ def close_prop(line, impl, model):
                     "goroutine that emitted them: the client process is terminated (%s)" % where)
         if f.get("nilerr", "0") != "0":
             return "failure-event-without-error|EventOnSnowflakeConnectionFailed was emitted with a nil Error (%s)" % where
+        if ret < n and sp[1] == "silent":
+            return ("rendezvous-attempt-unbounded|%d of %d Close calls did not return within 25 s (the 15 s the broker transport allows a broker to "
+                    "stay silent after the request, plus 10 s) while the broker held the rendezvous attempt in flight without answering: Close waits "
+                    "for an attempt that nothing bounds (%s)" % (n - ret, n, where))
         if ret < n:
             return "close-did-not-return|%d of %d Close calls did not return within 15 s although the rendezvous attempt in flight was over after 1.5 s (%s)" % (n - ret, n, where)
         if late > 0 or after > 1:
@@ -460,6 +469,8 @@ CLOSE_QUICK = [
     "2.hold.sess.c",
     "2.holdgood.none.c2",   # Close while a peer is being collected
     "1.holdgood.sess.cc",
+    "1.silent.none.c2",     # Close while a rendezvous attempt is in flight with a broker that accepted the request and stays silent:
+    "2.silent.sess.c",      # the attempt (and with it Close) is bounded by the transport's own ResponseHeaderTimeout (15 s)
 ]
 
 # <max>.<failure>.<k>.retry — k failed rendezvous attempts of the given kind, ReconnectTimeout (10 s) apart, then a proxy: they run in the
@@ -473,15 +484,17 @@ RETRY_QUICK = [
     "1.noopen.2.retry",     # the data channel never opens (DataChannelTimeout, 10 s, each time), then a proxy whose channel opens
     "2.noopen.1.retry",
     "1.refuse.0.retry",     # no failure at all: the first attempt meets the proxy
+    "1.silent.1.retry",     # the broker reads the request and never answers: the attempt fails after 15 s by itself and is made again
+    "2.silent.1.retry",
 ]
-RETRY_KINDS = ("ice", "unreach", "refuse", "badjson", "badsdp", "noopen")
+RETRY_KINDS = ("ice", "unreach", "refuse", "badjson", "badsdp", "noopen", "silent")
 
 
 def gen_close(ctx):
     """batches of scenarios for `closeconn batch`; a batch takes ~30 s whatever its size"""
     if ctx.tier != "thorough":
         return [CLOSE_QUICK + RETRY_QUICK], ["close-api-directed"]
-    allsc = ["%d.%s.%s.%s" % (m, k, p, c) for m in (1, 2, 3) for k in ("fail", "good", "hold", "holdgood")
+    allsc = ["%d.%s.%s.%s" % (m, k, p, c) for m in (1, 2, 3) for k in ("fail", "good", "hold", "holdgood", "silent")
              for p in ("none", "sess", "pconn", "stream") for c in ("c", "cc", "c2")]
     rest = [s for s in allsc if s not in CLOSE_QUICK]
     ctx.rng.shuffle(rest)
@@ -530,6 +543,7 @@ def run(ctx):
         "failures of CreateDataChannel/CreateOffer/SetLocalDescription are covered by the theorem but cannot be provoked in the unmodified code (only webrtc.Configuration{ICEServers} reaches pion; reasons in the header of coq/Properties/C15.v), so the correspondence does not exercise them",
         "every connect / close / retry scenario has an event listener that does what client/snowflake.go's ptEventLogger does (pt.Log(pt.LogSeverityNotice, e.String()), goptlib's Stdout redirected to io.Discard); a panic in it is caught and reported as term=1 (key client-process-terminated): in the client binary it would end the process",
         "DataChannelTimeout and ReconnectTimeout are constants (10 s each), not variables: the driver cannot shorten them; the scenarios that wait for them (connect 'noopen', retry scenarios: up to 2 failures 10 s apart) run in background driver processes while the peers scripts run, so they add no wall time",
+        "'silent' (close and retry scenarios) = the scripted broker reads the request and sends no response header until the client's connection goes away; the client side is built by NewSnowflakeClient -> NewBrokerChannel -> createBrokerTransport, so the limit on that silence is the code's own (ResponseHeaderTimeout 15 s); Close is given that limit + 10 s (key rendezvous-attempt-unbounded)",
         "retry scenarios: 'unreach' = the scripted broker drops the connection without an HTTP answer; 'ice' = ICEAddresses [\"\"] (what -ice \"\" gives): every attempt fails before the broker is asked; attempts are counted as EventOnOfferCreated events",
     ]
     # The close / retry scenarios mostly wait (ReconnectTimeouts): the driver is started on them now, in the
